@@ -220,9 +220,13 @@ def step(sym: dict, data: Any, ctx: Dict[str, Any], out: Outcome) -> Any:
             v = p[sym["src"]]
             if v is not None:
                 ctx[sym["dst"]] = v
+                if sym["src"] not in ctx:  # the value came from the node configuration; there is nothing to suppress
+                    raise Fail("KeyError", "missing-key-to-suppress")
                 del ctx[sym["src"]]
         elif op == "delete":
             if p[sym["src"]] is not None:
+                if sym["src"] not in ctx:
+                    raise Fail("KeyError", "missing-key-to-suppress")
                 del ctx[sym["src"]]
         elif op == "template":
             ctx[sym["dst"]] = sym["tmpl"].format(**{k: str(v) for k, v in p.items()})
